@@ -64,7 +64,7 @@ fn check_case(rep: &Report, case: &Case, labels: &[String], local: &mut Local, w
                 Err(EncFail::TooBig(_)) => {}
                 Err(e) => {
                     ok = false;
-                    rep.violation(&format!("encode_fail|{}", e.class()), &format!("mt{w}: {}", e.describe()), c.json(), c.weight());
+                    rep.violation_conclusive(&format!("encode_fail|{}", e.class()), &format!("mt{w}: {}", e.describe()), c.json(), c.weight());
                 }
             }
         }
